@@ -203,6 +203,20 @@ func corrCodec(prop string, outDir string, seed uint64, tier string, withEdits b
 		gt := genClass(r)
 		types = append(types, codecCase{fmt.Sprintf("K%d", i), gt, gt.t, true})
 	}
+	// the same layouts with runs of fields moved into embedded structs (depth 1..4): embedding is a documented field
+	// kind, and the flattened layout is unchanged
+	nNest := len(types) / 3
+	for i, k := 0, 0; k < nNest && i < len(types); i++ {
+		base := types[(i*7)%len(types)]
+		if base.gt == nil {
+			continue
+		}
+		if ngt, ok := nestType(r, base.gt, 1+k%4); ok {
+			types = append(types, codecCase{fmt.Sprintf("N%d", k), ngt, ngt.t, base.class})
+			k++
+		}
+	}
+	rep.Distribution["types_nested"] = nNest
 	for i, t := range handShapes {
 		types = append(types, codecCase{fmt.Sprintf("H%d", i), nil, t, false})
 	}
